@@ -697,6 +697,12 @@ fn check_files(case: &Case, ctx: &mut Ctx) -> Option<Violation> {
         ctx.stats.invalid = true;
         return None;
     }
+    if ctx.name_style == 3 && datas.iter().map(Vec::len).sum::<usize>() > 4000 {
+        // (a sweep over a file of many KB under a path of 330 bytes costs ten times the
+        // same sweep under a short name - seconds for one scenario; the long names stay
+        // with the small files)
+        ctx.name_style = 1;
+    }
     let as_dir = case.param("as_dir") == 1 && datas.len() == 1;
     let dir = if as_dir { ctx.fresh_dir() } else { None };
     let paths = match &dir {
